@@ -117,10 +117,19 @@ def zeroOf : Ty → GoVal
 
 abbrev R := Except String
 
-/-- `reflect.Value`: the zero Value or a value, addressable when obtained through a pointer -/
+/-- interface types of the universe -/
+def isIfaceTy : Ty → Bool
+  | .any => true
+  | .maybe _ => true
+  | _ => false
+
+/-- `reflect.Value`: the zero Value, a value of a concrete kind, or — obtained through a pointer to an
+    interface-typed variable — a Value of kind Interface of static type `t` holding `v` (possibly the nil interface);
+    addressable when obtained through a pointer -/
 inductive RV
   | zero
   | val (v : GoVal) (addr : Option Nat)
+  | iface (t : Ty) (v : GoVal) (addr : Option Nat)
   deriving DecidableEq, Repr
 
 /-- `reflect.ValueOf(i interface{})` -/
@@ -131,10 +140,12 @@ def valueOf : GoVal → RV
 def RV.kind : RV → Kind
   | .zero => .invalid
   | .val v _ => kindOf v
+  | .iface _ _ _ => .iface
 
 def RV.isValid : RV → Bool
   | .zero => false
   | .val _ _ => true
+  | .iface _ _ _ => true
 
 /-- `Value.IsNil`: panics unless the kind is chan, func, interface, map, pointer, slice or unsafe pointer -/
 def RV.isNil : RV → R Bool
@@ -145,15 +156,17 @@ def RV.isNil : RV → R Bool
   | .val (.chan c) _ => pure c.isNone
   | .val (.unsafePtr c) _ => pure c.isNone
   | .val (.ptr _ a) _ => pure a.isNone
+  | .iface _ v _ => pure (v == .nil)
   | .val _ _ => throw "reflect: call of reflect.Value.IsNil on a non-nillable Value"
 
 /-- `Value.Elem` of a pointer: the zero Value for a nil pointer, else the (addressable) pointee -/
 def RV.elem (h : Heap) : RV → R RV
   | .val (.ptr _ none) _ => pure .zero
-  | .val (.ptr _ (some a)) _ =>
+  | .val (.ptr t (some a)) _ =>
     match h[a]? with
-    | some x => pure (.val x (some a))
+    | some x => pure (if isIfaceTy t then .iface t x (some a) else .val x (some a))
     | none => throw "model: dangling address"
+  | .iface _ v _ => pure (valueOf v)
   | .zero => throw "reflect: call of reflect.Value.Elem on zero Value"
   | .val _ _ => throw "reflect: call of reflect.Value.Elem on a non-pointer Value"
 
@@ -163,26 +176,13 @@ def RV.type : RV → R Ty
     match typeOf? v with
     | some t => pure t
     | none => throw "model: interface-kinded Value"
+  | .iface t _ _ => pure t
 
+/-- `Value.Interface()`: of a Value of kind Interface, the value inside (nil for the nil interface) -/
 def RV.interface : RV → R GoVal
   | .zero => throw "reflect: call of reflect.Value.Interface on zero Value"
   | .val v _ => pure v
-
-/-- `reflect.New(t)`: pointer to a fresh zero `t` -/
-def rvNew (h : Heap) (t : Ty) : Heap × RV := (h ++ [zeroOf t], .val (.ptr t (some h.length)) none)
-
-/-- `dst.Set(src)`: `dst` must be addressable and of the same type -/
-def RV.set (h : Heap) : RV → RV → R Heap
-  | .val d (some a), .val s _ =>
-    if typeOf? d = typeOf? s then pure (h.set a s)
-    else throw "reflect.Set: value is not assignable"
-  | .val _ none, _ => throw "reflect: reflect.Value.Set using unaddressable value"
-  | .zero, _ => throw "reflect: call of reflect.Value.Set on zero Value"
-  | _, .zero => throw "reflect: call of reflect.Value.Set with zero Value"
-
-/-- `reflect.Indirect` -/
-def indirect (h : Heap) (v : RV) : R RV :=
-  if v.kind = .ptr then v.elem h else pure v
+  | .iface _ v _ => pure v
 
 /-- does the type assertion / type-switch case `x.(T)` succeed -/
 def implementsTy (T : Ty) (v : GoVal) : Bool :=
@@ -198,6 +198,28 @@ def implementsTy (T : Ty) (v : GoVal) : Bool :=
 /-- `x.(T)` without comma-ok -/
 def assertTy (T : Ty) (v : GoVal) : R GoVal :=
   if implementsTy T v then pure v else throw "interface conversion: wrong dynamic type"
+
+/-- `reflect.New(t)`: pointer to a fresh zero `t` -/
+def rvNew (h : Heap) (t : Ty) : Heap × RV := (h ++ [zeroOf t], .val (.ptr t (some h.length)) none)
+
+/-- `dst.Set(src)`: `dst` must be addressable and `src` assignable to its type -/
+def RV.set (h : Heap) : RV → RV → R Heap
+  | .val d (some a), .val s _ =>
+    if typeOf? d = typeOf? s then pure (h.set a s)
+    else throw "reflect.Set: value is not assignable"
+  | .iface t _ (some a), .val s _ =>
+    if implementsTy t s then pure (h.set a s) else throw "reflect.Set: value is not assignable"
+  | .iface t _ (some a), .iface t' s _ =>
+    if t' = t || implementsTy t s then pure (h.set a s) else throw "reflect.Set: value is not assignable"
+  | .val _ (some _), .iface _ _ _ => throw "reflect.Set: value is not assignable"
+  | .val _ none, _ => throw "reflect: reflect.Value.Set using unaddressable value"
+  | .iface _ _ none, _ => throw "reflect: reflect.Value.Set using unaddressable value"
+  | .zero, _ => throw "reflect: call of reflect.Value.Set on zero Value"
+  | _, .zero => throw "reflect: call of reflect.Value.Set with zero Value"
+
+/-- `reflect.Indirect` -/
+def indirect (h : Heap) (v : RV) : R RV :=
+  if v.kind = .ptr then v.elem h else pure v
 
 /-! ### fp.go -/
 
@@ -427,8 +449,8 @@ def fmtV (h : Heap) : Nat → GoVal → Option String
   | _, .chan Option.none => some (hexOfAscii "<nil>")
   | _, .chan (some _) => Option.none
   | _, .ptr _ Option.none => some (hexOfAscii "<nil>")
-  | d, .ptr _ (some a) =>
-    if d = 0 then
+  | d, .ptr t (some a) =>
+    if d = 0 && !isIfaceTy t then
       match h[a]? with
       | some (.struct k) => some (hexOfAscii ("&{" ++ toString k ++ "}"))
       | some (.array k) => some (hexOfAscii ("&[" ++ toString k ++ " " ++ toString (k + 1) ++ "]"))
